@@ -81,7 +81,7 @@ def run_once(cfg: Config, chooser: Chooser) -> Obs:
         U.WORLD.reset(epoch=1, faults=fault_labels, fault_exc=cfg.fault_exc)
         backend = SchedBackend(chooser, batch=cfg.batch, stutter=cfg.stutter, died=died_labels,
                                horizon=4 * spec.n + 8)
-        req = [built.fresh(i) if fr else built.canon[i] for i, fr in cfg.requested]
+        req = [built.get(i, fr) for i, fr in cfg.requested]
         lab = labtech.Lab(storage=storage, runner_backend=backend, continue_on_failure=cfg.cof,
                           notebook=False, context=ctx)
         try:
@@ -200,6 +200,8 @@ def oracle_c03(obs: Obs):
     loads: dict = {}
     for ev in obs.events:
         if ev[0] in ('exec_ok', 'exec_fail'):
+            if ev[0] == 'exec_fail' and len(ev) > 3 and ev[3] == 'ChildKilled':
+                continue          # the (virtual) worker was killed inside run(): counted once, by its 'died' event
             (loads if ev[2] else execs).setdefault(ev[1], []).append(ev[0])
         elif ev[0] == 'died':
             execs.setdefault(ev[1], []).append('died')
@@ -217,6 +219,19 @@ def oracle_c03(obs: Obs):
             out.append(('cached-executed', f'node {i} {k} is cached but was executed'))
         if i in ref.executes and n_l:
             out.append(('uncached-loaded', f'node {i} {k} is not cached (or bust_cache) but was loaded'))
+    # reads of stored results, wherever they happen (a worker that fetches a dependency's result from
+    # the cache itself loads it once more)
+    reads: dict = {}
+    for ev in obs.world:
+        if ev[0] == 'result-read':
+            reads[ev[1]] = reads.get(ev[1], 0) + 1
+    for i in range(spec.n):
+        k = (spec.types[i], spec.labels[i])
+        n_r = reads.get(obs.built.canon[i].cache_key, 0)
+        if n_r > 1:
+            out.append(('more-than-once', f'the stored result of node {i} {k} was read {n_r} times in one run'))
+        elif n_r and i in ref.executes and i not in ref.fails and execs.get(k):
+            out.append(('more-than-once', f'node {i} {k} was executed and its stored result was read as well'))
     complete = obs.outcome[0] == 'return'
     if complete:
         touched = {idx[k] for k in set(execs) | set(loads) if k in idx}
